@@ -218,7 +218,7 @@ func TestC10_Random(t *testing.T) {
 		case 1:
 			in = []byte(rapid.StringOfN(rapid.RuneFrom(c15Alphabet), 0, 30, -1).Draw(t, "runes"))
 		default:
-			e := gen.FreeExpr(t, rapid.IntRange(1, 4).Draw(t, "depth"))
+			e := gen.FreeExprKW(t, rapid.IntRange(1, 4).Draw(t, "depth"))
 			rend := bx.NewRenderer(chooser(t))
 			rend.MaxParen = 2
 			text, _ := rend.Render(e)
